@@ -149,6 +149,20 @@ Proof.
     specialize (IH H0). lia.
 Qed.
 
+(* membership of a task group: unconditional for a mandatory task, under its scheduled flag for an optional one *)
+Lemma group_body e gs ge ts :
+  (forall f, In f (flat_map (fun t => if ti_opt t then [FImp (sched_f t) (FAnd [FGe (S_ t) gs; FLe (E_ t) ge])]
+                                     else [FGe (S_ t) gs; FLe (E_ t) ge]) ts) -> feval e f = true) ->
+  forall t, In t ts -> feval e (act t) = true -> feval e (FGe (S_ t) gs) = true /\ feval e (FLe (E_ t) ge) = true.
+Proof.
+  intros H t Ht Ha. destruct (ti_opt t) eqn:Ho.
+  - assert (Hi : feval e (FImp (sched_f t) (FAnd [FGe (S_ t) gs; FLe (E_ t) ge])) = true).
+    { apply H. apply in_flat_map. exists t. split; [exact Ht|]. rewrite Ho. now left. }
+    rewrite feval_eq in Hi. change (sched_f t) with (act t) in Hi. rewrite Ha in Hi. cbn [implb] in Hi.
+    rewrite feval_eq in Hi. cbn [forallb] in Hi. rewrite !andb_true_iff in Hi. tauto.
+  - split; apply H; apply in_flat_map; exists t; (split; [exact Ht|]); rewrite Ho; [now left|right; now left].
+Qed.
+
 Lemma C03_kind_sound e c x :
   (forall f, In f (enc_raw c x) -> feval e f = true) ->
   forall k f, In (k, f) (spec_C03_P x) -> feval e f = true.
@@ -186,40 +200,43 @@ Proof.
       * right. rewrite feval_eq. apply existsb_exists. exists (FEq (S_ u) (E_ t)). split; [exact (in_map (fun u0 => FEq (S_ u0) (E_ t)) others u Hu)|]. rewrite feval_eq. lia.
   - (* unordered group *)
     pose proof (one _ _ _ H) as HA. clear H. rewrite app_nil_r in Hin.
-    assert (Hbody : forall t, In t ts -> feval e (FGe (S_ t) (aux c 0)) = true /\ feval e (FLe (E_ t) (aux c 1)) = true).
-    { intros t Ht. split; apply (fand_in _ _ _ HA); apply in_or_app; right; apply in_or_app; left;
-        apply in_flat_map; exists t; (split; [exact Ht|]); [now left|right; now left]. }
+    pose proof (group_body e (aux c 0) (aux c 1) ts) as Hbody.
+    assert (Hb' : forall t, In t ts -> feval e (act t) = true ->
+                  feval e (FGe (S_ t) (aux c 0)) = true /\ feval e (FLe (E_ t) (aux c 1)) = true).
+    { intros t Ht Ha. apply Hbody; auto. intros g Hg. apply (fand_in _ _ _ HA). apply in_or_app; right. rewrite app_nil_r. exact Hg. }
     destruct win as [[lo hi]|].
-    + apply in_map_iff in Hin as (t & [= <- <-] & Ht). apply whenact_intro; intros _.
-      destruct (Hbody t Ht) as [H1 H2].
+    + apply in_map_iff in Hin as (t & [= <- <-] & Ht). apply whenact_intro; intros Ha.
+      destruct (Hb' t Ht Ha) as [H1 H2].
       assert (H3 : feval e (FGe (aux c 0) (TC lo)) = true) by (apply (fand_in _ _ _ HA); now left).
       assert (H4 : feval e (FLe (aux c 1) (TC hi)) = true) by (apply (fand_in _ _ _ HA); right; now left).
       ev. lia.
     + destruct len as [l|]; [|destruct Hin].
       apply in_map_iff in Hin as ([a b] & [= <- <-] & Hab). apply in_prod_iff in Hab as [Ha Hb].
-      apply whenact2_intro; intros _ _.
-      destruct (Hbody a Ha) as [_ H2]. destruct (Hbody b Hb) as [H1 _].
+      apply whenact2_intro; intros Haa Hab.
+      destruct (Hb' a Ha Haa) as [_ H2]. destruct (Hb' b Hb Hab) as [H1 _].
       assert (H3 : feval e (FLe (aux c 1) (TAdd [aux c 0; TC l])) = true) by (apply (fand_in _ _ _ HA); now left).
       ev. lia.
   - (* ordered group *)
     pose proof (one _ _ _ H) as HA. clear H.
-    assert (Hbody : forall t, In t ts -> feval e (FGe (S_ t) (aux c 0)) = true /\ feval e (FLe (E_ t) (aux c 1)) = true).
-    { intros t Ht. split; apply (fand_in _ _ _ HA); apply in_or_app; right; apply in_or_app; left;
-        apply in_flat_map; exists t; (split; [exact Ht|]); [now left|right; now left]. }
+    pose proof (group_body e (aux c 0) (aux c 1) ts) as Hbody.
+    assert (Hb' : forall t, In t ts -> feval e (act t) = true ->
+                  feval e (FGe (S_ t) (aux c 0)) = true /\ feval e (FLe (E_ t) (aux c 1)) = true).
+    { intros t Ht Ha. apply Hbody; auto. intros g Hg. apply (fand_in _ _ _ HA). apply in_or_app; right. apply in_or_app; left. exact Hg. }
     apply in_app_or in Hin as [Hin|Hin].
     + destruct win as [[lo hi]|].
-      * apply in_map_iff in Hin as (t & [= <- <-] & Ht). apply whenact_intro; intros _.
-        destruct (Hbody t Ht) as [H1 H2].
+      * apply in_map_iff in Hin as (t & [= <- <-] & Ht). apply whenact_intro; intros Ha.
+        destruct (Hb' t Ht Ha) as [H1 H2].
         assert (H3 : feval e (FGe (aux c 0) (TC lo)) = true) by (apply (fand_in _ _ _ HA); now left).
         assert (H4 : feval e (FLe (aux c 1) (TC hi)) = true) by (apply (fand_in _ _ _ HA); right; now left).
         ev. lia.
       * destruct len as [l|]; [|destruct Hin].
         apply in_map_iff in Hin as ([a b] & [= <- <-] & Hab). apply in_prod_iff in Hab as [Ha Hb].
-        apply whenact2_intro; intros _ _.
-        destruct (Hbody a Ha) as [_ H2]. destruct (Hbody b Hb) as [H1 _].
+        apply whenact2_intro; intros Haa Hab.
+        destruct (Hb' a Ha Haa) as [_ H2]. destruct (Hb' b Hb Hab) as [H1 _].
         assert (H3 : feval e (FLe (aux c 1) (TAdd [aux c 0; TC l])) = true) by (apply (fand_in _ _ _ HA); now left).
         ev. lia.
-    + apply in_map_iff in Hin as ([a b] & [= <- <-] & Hab). apply whenact2_intro; intros _ _.
+    + apply in_map_iff in Hin as ([a b] & [= <- <-] & Hab). apply whenact2_intro; intros Haa Hbb.
+      apply (guard2_elim e a b); auto.
       apply (fand_in _ _ _ HA). apply in_or_app; right; apply in_or_app; right.
       apply in_map_iff. exists (a, b). auto.
   - (* scheduleN, lower half *)
